@@ -913,7 +913,10 @@ class PersistentDict(collections.abc.MutableMapping):
 
     def reload(self):
         """Force a reload from disk, overwriting current cache"""
-        self._cache = dict(self._func.items())
+        fresh = dict(self._func.items())
+        # refill in place: the finalizer registered in __init__ holds this dict object
+        self._cache.clear()
+        self._cache.update(fresh)
 
 
 SEARCH_PATH = []
